@@ -248,6 +248,7 @@ pub fn chunk_value(max: usize, v: &ChunkVal) -> usize {
         ChunkVal::MaxPlus1 => max + 1,
         ChunkVal::UsizeMax => usize::MAX,
         ChunkVal::N(n) => *n,
+        ChunkVal::Pow2Plus { pow, delta } => (1usize << (*pow as usize % 64)).wrapping_add(*delta),
     }
 }
 
@@ -374,9 +375,15 @@ impl<T: Flt> Runner<T> {
     }
 
     fn fill_output(&mut self, len: usize) {
+        // inactive channels: their output buffers may be empty too (every other call, when the scenario passes
+        // inactive channels as empty slices)
+        let empty_out = self.cfg.empty_inactive && self.trace.steps.len() % 2 == 1;
         for c in 0..self.cfg.channels {
             let buf = &mut self.outbuf[c];
             buf.clear();
+            if empty_out && !self.cfg.active(c) {
+                continue;
+            }
             buf.resize(len, T::sentinel());
         }
     }
@@ -761,7 +768,7 @@ impl<T: Flt> Runner<T> {
                     }
                 }
                 if let Some((c, k, v)) = nonfinite {
-                    if !matches!(self.signal, Signal::Wide { .. } | Signal::NanSparse { .. }) {
+                    if !matches!(self.signal, Signal::Wide { .. } | Signal::NanSparse { .. } | Signal::Extreme { .. }) {
                         self.viol("C03", "non-finite-output", idx, format!("channel {} frame {} is {} (finite bounded input; NaN = read of the input slack beyond input_frames_next)", c, k, v));
                     }
                 }
